@@ -152,9 +152,29 @@ def sampler_case(ctx, case):
     env, pdp = make_env(cfg)
     torch.manual_seed(seed)
     td = env.reset(batch_size=[B])
+    # a second, independent search on the SAME instances: its best tours are used as step_to_solution targets (some are
+    # strictly better than this search's best, some worse)
+    src = td["locs"].clone()
+    if pdp:
+        from tensordict import TensorDict
+
+        td2 = env.reset(TensorDict({"depot": src[:, 0].clone(), "locs": src[:, 1:].clone()}, batch_size=[B]))
+    else:
+        from tensordict import TensorDict
+
+        td2 = env.reset(TensorDict({"locs": src.clone()}, batch_size=[B]))
     sh = Shadow(ctx, dict(env=cfg["env"], k=cfg.get("k"), driver="sampler"), td, pdp)
     ctx.count("episodes")
     for t in range(case.get("steps", 40)):
+        if case.get("jump_every") and (t + 1) % case["jump_every"] == 0:
+            for _ in range(3):
+                td2.set("action", env._random_action(td2))
+                td2 = env.step(td2)["next"]
+            before = td["cost_bsf"].clone()
+            td = env.step_to_solution(td, td2["rec_best"].clone())
+            sh.observe(td, None, "step_to_solution")
+            ctx.count("c09_step_to_other_solution")
+            ctx.count("c09_step_to_better_solution", int((td["cost_bsf"] < before - 1e-6).sum()))
         a = env._random_action(td)
         td.set("action", a)
         before = td["rec_current"].clone()
